@@ -732,7 +732,8 @@ impl Parser {
                 minus = true;
                 lexem = self.next_lexem();
             } else if s == "+" {
-                // nop
+                // unary plus: skip the sign
+                lexem = self.next_lexem();
             } else {
                 self.drop_lexem();
             }
